@@ -128,6 +128,20 @@ func Project(e ast.Expr) ast.Expr {
 			}
 		}
 	}
+	// positional literal of a struct type written in place: `struct{a T; b U}{x, y}.b`
+	if st, ok := lit.Type.(*ast.StructType); ok && len(lit.Elts) > 0 {
+		if _, keyed := lit.Elts[0].(*ast.KeyValueExpr); !keyed {
+			i := 0
+			for _, f := range st.Fields.List {
+				for _, nm := range f.Names {
+					if nm.Name == sel.Sel.Name && i < len(lit.Elts) {
+						return lit.Elts[i]
+					}
+					i++
+				}
+			}
+		}
+	}
 	return e
 }
 
@@ -175,7 +189,23 @@ func ProjectLocal(info *types.Info, scope ast.Node, e ast.Expr) ast.Expr {
 		// a constructor helper whose body is one `return T{...}`
 		def = InlineOneLiners(curProg, info, scope, def, v.Pkg().Path(), 0)
 	}
-	return Project(&ast.SelectorExpr{X: def, Sel: sel.Sel})
+	probe := &ast.SelectorExpr{X: def, Sel: sel.Sel}
+	if r := Project(probe); r != ast.Expr(probe) {
+		return r
+	}
+	// positional literal of a named struct type: the field order comes from the type
+	if lit, ok := ast.Unparen(def).(*ast.CompositeLit); ok && len(lit.Elts) > 0 {
+		if _, keyed := lit.Elts[0].(*ast.KeyValueExpr); !keyed {
+			if st, ok := v.Type().Underlying().(*types.Struct); ok && st.NumFields() == len(lit.Elts) {
+				for i := 0; i < st.NumFields(); i++ {
+					if st.Field(i).Name() == sel.Sel.Name {
+						return lit.Elts[i]
+					}
+				}
+			}
+		}
+	}
+	return e
 }
 
 // LocalClosure returns the function literal that the identifier fun denotes
@@ -533,6 +563,10 @@ func (h *Helper) Graph(p *core.Program) *cfgq.Graph {
 
 // HelperOf resolves the callee of call to a helper that may be followed.
 func HelperOf(p *core.Program, info *types.Info, scope ast.Node, call *ast.CallExpr, pkgPath string) *Helper {
+	if fl, ok := ast.Unparen(call.Fun).(*ast.FuncLit); ok {
+		// a literal called in place: `func() {...}()`
+		return &Helper{Body: fl.Body, Type: fl.Type, Info: info, Lit: fl}
+	}
 	if scope != nil {
 		if fl := LocalClosure(info, scope, call.Fun); fl != nil {
 			return &Helper{Body: fl.Body, Type: fl.Type, Info: info, Lit: fl}
@@ -814,6 +848,7 @@ func AnalyseParser(c *core.Ctx) *Parser {
 	if bad {
 		return nil
 	}
+	c.Okf("model", "parser", fn.Decl.Pos(), "decode loop and %d enqueue sites of the command parser recognised", len(p.Sends))
 	return p
 }
 
@@ -855,19 +890,25 @@ type Sender struct {
 	TickBody *cfg.Block
 	TickChan ast.Expr
 
-	Barrier   *ast.AssignStmt // bs, fs = barrierStatus(item.Cmd, bs)
-	BarrierPt cfgq.Point
-	Bs, Fs    types.Object
-	Appends   []*ast.AssignStmt // every `tunnel = append(tunnel, ...)` of the function
+	Barrier *ast.AssignStmt // bs, fs = barrierStatus(item.Cmd, bs)  (the last statement of the chain when the results are carried in temporaries)
+	// BarrierCall is the call itself, BarrierChain the statements that carry its results to Bs and Fs
+	BarrierCall  *ast.CallExpr
+	BarrierChain map[ast.Node]bool
+	BarrierPt    cfgq.Point
+	Bs, Fs       types.Object
+	Appends      []*ast.AssignStmt // every `tunnel = append(tunnel, ...)` of the function
 }
 
 // ConnMethod: call is method `name` of the redigo Conn interface; returns the receiver expression.
 func ConnMethod(info *types.Info, call *ast.CallExpr, name string) (ast.Expr, bool) {
-	sel, ok := ast.Unparen(call.Fun).(*ast.SelectorExpr)
-	if !ok || sel.Sel.Name != name {
+	sel := MethodSel(info, call) // also through a method value bound once to a local (`send := c.Send`)
+	if sel == nil || sel.Sel.Name != name {
 		return nil, false
 	}
 	f := core.CalleeFunc(info, call)
+	if f == nil {
+		f, _ = info.Uses[sel.Sel].(*types.Func)
+	}
 	if f == nil {
 		return nil, false
 	}
@@ -1355,8 +1396,14 @@ func AnalyseSender(c *core.Ctx) *Sender {
 		}
 		s.elem = isElem
 		if len(s.LoopBody.List) > 0 {
-			if as, ok := s.LoopBody.List[0].(*ast.AssignStmt); ok && as.Tok == token.DEFINE && len(as.Lhs) == 1 && len(as.Rhs) == 1 && isElem(as.Rhs[0]) {
-				s.ItemVar = core.ObjOf(rinfo, as.Lhs[0])
+			if as, ok := s.LoopBody.List[0].(*ast.AssignStmt); ok && as.Tok == token.DEFINE && len(as.Lhs) == 1 && len(as.Rhs) == 1 {
+				rhs := ast.Unparen(as.Rhs[0])
+				if u, ok := rhs.(*ast.UnaryExpr); ok && u.Op == token.AND {
+					rhs = u.X // `item := &batch[i]`: the fields are read through the pointer
+				}
+				if isElem(rhs) {
+					s.ItemVar = core.ObjOf(rinfo, as.Lhs[0])
+				}
 			}
 		}
 	}
@@ -1378,6 +1425,37 @@ func AnalyseSender(c *core.Ctx) *Sender {
 		}
 		return true
 	})
+	if len(s.Data) == 0 && s.RC == s.X.Root {
+		// the Send may sit in a helper or closure called from the loop body
+		for _, pt := range s.X.Points(XIsSend) {
+			a := pt.C
+			for a.Parent != nil && a.Parent != s.RC {
+				a = a.Parent
+			}
+			if a.Parent != s.RC || a.Call == nil || !(s.LoopBody.Pos() <= a.Call.Pos() && a.Call.End() <= s.LoopBody.End()) {
+				continue
+			}
+			for _, call := range cfgq.ExecCalls(pt.P.Node()) {
+				site := SendOf(pt.C.Info, call)
+				if site == nil {
+					continue
+				}
+				r := &SendSite{Call: a.Call, Ellipsis: site.Ellipsis, Fatal: site.Fatal, Lost: site.Lost, Wrapper: site.Wrapper}
+				for _, arg := range site.Args {
+					r.Args = append(r.Args, s.X.Resolve(pt.C, arg))
+				}
+				r.Conn = s.X.Resolve(pt.C, site.Conn)
+				s.Data = append(s.Data, r)
+				conn := r.Conn
+				if o, ok := SoleOrigin(info, fn.Decl, conn); ok && o.Expr != nil && o.Op == 0 && !o.Range && o.Res <= 0 {
+					conn = o.Expr
+				}
+				if id, ok := ast.Unparen(conn).(*ast.Ident); ok {
+					s.Conn = core.ObjOf(info, id)
+				}
+			}
+		}
+	}
 	if len(s.Data) == 0 || s.Conn == nil {
 		return und("data-send", s.Loop.Pos(), "no conn.Send call on a connection variable inside the range over the batch")
 	}
@@ -1432,8 +1510,26 @@ func AnalyseSender(c *core.Ctx) *Sender {
 		}
 		if len(as.Rhs) == 1 && len(as.Lhs) == 2 && bst != nil {
 			if call, ok := ast.Unparen(as.Rhs[0]).(*ast.CallExpr); ok && core.CalleeFunc(info, call) == bst.Obj {
-				s.Barrier = as
+				s.Barrier, s.BarrierCall = as, call
+				s.BarrierChain = map[ast.Node]bool{as: true}
 				s.Bs, s.Fs = core.ObjOf(info, as.Lhs[0]), core.ObjOf(info, as.Lhs[1])
+				// the results may reach the state and flush variables through temporaries
+				// (`s, f := barrierStatus(..); v_state, v_flush = s, f; bs, fs = v_state, v_flush`):
+				// follow single-use copies inside the same basic block
+				for _, o := range []*types.Object{&s.Bs, &s.Fs} {
+					at := ast.Stmt(as)
+					for k := 0; k < 6; k++ {
+						next, st := tempCopy(info, fn.Decl, *o)
+						if next == nil || !sameBlock(s.G, at, st) || st.Pos() < at.Pos() {
+							break
+						}
+						*o, at = next, st
+						s.BarrierChain[st] = true
+						if st.Pos() > s.Barrier.Pos() {
+							s.Barrier = st
+						}
+					}
+				}
 			}
 		}
 		return true
@@ -1453,6 +1549,7 @@ func AnalyseSender(c *core.Ctx) *Sender {
 	if s.Barrier != nil {
 		s.BarrierPt, _ = s.G.Find(s.Barrier)
 	}
+	c.Okf("model", "sender", fn.Decl.Pos(), "receive loop, batch and flush closure of the sender recognised")
 	return s
 }
 
@@ -1467,4 +1564,80 @@ func (s *Sender) IsAppend(n ast.Node) bool {
 		}
 	}
 	return false
+}
+
+// tempCopy: obj is a local variable of decl that is written exactly once and
+// read exactly once (apart from `_ = obj`), and that read is `x = obj` (an
+// element of a parallel assignment as well): returns x and the copy statement.
+func tempCopy(info *types.Info, decl *ast.FuncDecl, obj types.Object) (types.Object, *ast.AssignStmt) {
+	v, ok := obj.(*types.Var)
+	if !ok || v.IsField() || decl.Body == nil || !(decl.Body.Pos() <= v.Pos() && v.Pos() < decl.Body.End()) {
+		return nil, nil
+	}
+	writes, reads := 0, 0
+	var next types.Object
+	var at *ast.AssignStmt
+	counted := map[*ast.Ident]bool{}
+	core.InspectAll(decl.Body, func(n ast.Node) bool {
+		switch x := n.(type) {
+		case *ast.AssignStmt:
+			for _, l := range x.Lhs {
+				if id, ok := ast.Unparen(l).(*ast.Ident); ok && core.ObjOf(info, id) == obj {
+					writes++
+					counted[id] = true
+				}
+			}
+			if len(x.Lhs) == len(x.Rhs) {
+				for i, r := range x.Rhs {
+					id, ok := ast.Unparen(r).(*ast.Ident)
+					if !ok || core.ObjOf(info, id) != obj {
+						continue
+					}
+					l, ok := ast.Unparen(x.Lhs[i]).(*ast.Ident)
+					if !ok {
+						continue
+					}
+					counted[id] = true
+					if l.Name == "_" {
+						continue // `_ = tmp` keeps the compiler quiet
+					}
+					if x.Tok != token.ASSIGN && x.Tok != token.DEFINE {
+						reads += 2
+						continue
+					}
+					reads++
+					next, at = core.ObjOf(info, l), x
+				}
+			}
+		case *ast.ValueSpec:
+			for i, nm := range x.Names {
+				if info.Defs[nm] == obj && i < len(x.Values) {
+					writes++
+				}
+			}
+		case *ast.IncDecStmt:
+			if id, ok := ast.Unparen(x.X).(*ast.Ident); ok && core.ObjOf(info, id) == obj {
+				writes += 2
+			}
+		case *ast.UnaryExpr:
+			if id, ok := ast.Unparen(x.X).(*ast.Ident); ok && x.Op == token.AND && core.ObjOf(info, id) == obj {
+				writes += 2
+			}
+		case *ast.Ident:
+			if info.Uses[x] == obj && !counted[x] {
+				reads++
+			}
+		}
+		return true
+	})
+	if writes != 1 || reads != 1 || next == nil {
+		return nil, nil
+	}
+	return next, at
+}
+
+func sameBlock(g *cfgq.Graph, a, b ast.Node) bool {
+	pa, ok1 := g.Find(a)
+	pb, ok2 := g.Find(b)
+	return ok1 && ok2 && pa.B == pb.B
 }
